@@ -11,7 +11,7 @@ func init() {
 		),
 		Runs: []HarnessRun{
 			{Pkg: "wire", Entry: "VerifH15", What: "no cell written for one connection is touched for the other without synchronisation; per-connection session_authorization; configured map untouched",
-				Quick: map[string]int{}, Witnesses: []string{"both-encode-rows", "same-names-on-both", "with-type-extension", "empty-configured-map"}},
+				Quick: map[string]int{}, Witnesses: []string{"both-encode-rows", "same-names-on-both", "with-type-extension", "empty-configured-map", "with-authentication"}},
 			{Pkg: "wire", Entry: "VerifH07b", What: "names of one connection are invisible to the next", Quick: map[string]int{}, Witnesses: []string{"isolated"}},
 		},
 	})
